@@ -18,3 +18,17 @@ def runWrites (out : I → V) (ws : List (I × V)) : I → V :=
 def kernelWrites (cells : List I) (f : I → V) : List (I × V) := cells.map fun c => (c, f c)
 
 end PdeVerif.ParLoop
+
+namespace PdeVerif.ParLoop
+
+variable {I V : Type} [DecidableEq I]
+
+/-- a general loop iteration: it may read the whole current store (input and output arrays alike, `I` indexes both) and
+returns its writes.  Unlike `kernelWrites` this can express a kernel that reads `out` or writes its input. -/
+abbrev Body (I V : Type) := (I → V) → List (I × V)
+
+/-- executing iterations one after the other; each sees the store left by its predecessors -/
+def runBodies (s : I → V) (bs : List (Body I V)) : I → V :=
+  bs.foldl (fun o b => runWrites o (b o)) s
+
+end PdeVerif.ParLoop
